@@ -1,8 +1,6 @@
 """C01 — full load returns every leaf cell exactly once with true geometry, values, units."""
 from __future__ import annotations
 
-from . import io_rules as io
-from . import io_rules2 as io2
 from .config_rules import check_unit_library
 
 EXPLANATION = "Folds (the repository's own functions and classes interpreted by sa/models.py::ModelEval over abstract tokens) and symbolic analyses: (R1) read_binary_data interpreted with symbolic counters: byte position = sum(count*size)+8*records(+4), counters advanced; (R2/R9) AmrReader/Hydro/Grav/Rt.read_header interpreted on a symbolic file: every decode is aligned BY BYTE POSITION (exact polynomials in ncpu, levelmax, nboundary, noutput, nx*ny*nz) with the record of the layout specification S1 it hits, header length equals S1, decoded fields end up in the right places (xbound per axis, grid counts per (level, cpu) transposed, boundary rows); (R3) one (level, domain) block in owner mode and step_over for every mesh reader: decodes aligned, block length equal for read / not-read variables and step_over; (R4/R6) Loader.load interpreted with recording reader models over 9 scenarios and a two-load history, compared with the traversal specification (per-reader record sequence, file names, offsets zeroed per file, one conjunction mask per block, pieces, counters); (R5) leaf flag over {has a son} x {below / at the deepest loaded level}; (R7) every buffer is filled from its own record times the magnitude of its own unit and labelled with that unit; (R8) configure_units evaluated in the dimension domain D2 against S2; (R11) make_vector_arrays over 12 name-set cases; additional_variables over 4 input sets; (R12) reader.initialize histories (on / off / files gone) with file-system models: files looked up under the resolved output directory also for nout=-1."
